@@ -21,6 +21,8 @@ func main() {
 		cmdSweep()
 	case "calls":
 		cmdCalls()
+	case "wire":
+		cmdWire()
 	default:
 		fmt.Fprintln(os.Stderr, "unknown command")
 		os.Exit(2)
